@@ -91,9 +91,37 @@ def template(kind, settings, make):
     return path
 
 
+class BlockAbort(Exception):
+    """Raised by the harness inside a transaction block."""
+
+
 def impl_op(c, op):
     name = op[0]
     a = op[1:]
+    if name == 'block':
+        # ('block', body, raise_after): raise_after=None commits
+        def run_block():
+            out = []
+            with c.transact():
+                for i, b in enumerate(a[0]):
+                    if a[1] is not None and i == a[1]:
+                        raise BlockAbort()
+                    out.append(impl_op(c, b))
+                if a[1] is not None and a[1] >= len(a[0]):
+                    raise BlockAbort()
+            return tuple(out)
+        return call(run_block)
+    if name == 'nested':
+        # inner block that raises and is caught: ('nested', body)
+        def run_nested():
+            try:
+                with c.transact():
+                    for b in a[0]:
+                        impl_op(c, b)
+                    raise BlockAbort()
+            except BlockAbort:
+                return 'caught'
+        return call(run_nested)
     if name == 'set':
         return call(c.set, a[0], val(a[1]), expire=a[2], tag=a[3])
     if name == 'setitem':
@@ -167,6 +195,24 @@ def impl_op(c, op):
 def model_op(s, op):
     name = op[0]
     a = op[1:]
+    if name == 'block':
+        import copy
+        trial = copy.deepcopy(s)
+        out = []
+        for i, b in enumerate(a[0]):
+            if a[1] is not None and i == a[1]:
+                return Raises('BlockAbort')
+            out.append(model_op(trial, b))
+        if a[1] is not None and a[1] >= len(a[0]):
+            return Raises('BlockAbort')
+        s.__dict__.update(trial.__dict__)
+        return tuple(out)
+    if name == 'nested':
+        # only the outermost block commits or rolls back: the inner body's
+        # effects stay
+        for b in a[0]:
+            model_op(s, b)
+        return 'caught'
     if name in ('set', 'setitem'):
         r = s.set(a[0], val(a[1]), *(a[2:4] if name == 'set' else ()))
         return None if name == 'setitem' else r
